@@ -6,12 +6,16 @@ from .. import sx
 from ..impl import run_impl
 from ..model import run_model
 from . import dimwise as dw
+from . import _c06_gen
 
 ASSUMPTIONS = [
     'coordinates/benefits on dyadic lattices: interval end points and the margin test are exact in binary64',
     'benefit assignments on which the binary64 margin test and the exact test differ are not generated',
-    'rebalancing test abs(p/(n-2)-0.5) > abs(p1/(n-2)-0.5)+sf is decided in binary64: the model takes the set of (p,p1,n-2) on '
-    'which binary64 and exact arithmetic differ as an input computed by the harness with the same Python expression',
+    'rebalancing test abs(p/(n-2)-0.5) > abs(p1/(n-2)-0.5)+sf is decided in binary64: for the safety factors 0.1, 0, 0.125, 0.25, 0.05 and '
+    'n-2 <= 64 the model decides with Coq primitive floats (table computed by Coq, C06_rebalance_test_is_binary64_bounded; the kernel '
+    'primitives PrimFloat / PrimInt63 are the trusted binary64 implementation); only for n-2 > 64 the set of (p,p1,n-2) on which binary64 '
+    'and exact arithmetic differ is an input computed by the harness with the same Python expression; the harness cross-checks its '
+    'evaluation against the Coq tables on every run',
     'GlobalTrapezoidalGrid only (mid point = 0.5*(a+b)); chebyshev / weighted mid points / force_balanced_refinement_tree not modelled',
     'deep / install families drive the strategy directly: obj.benefit is set on every object, sa.benefit_max = refinement.get_max_benefit() '
     '(what evaluate_operation does after the error estimation), sa.refine(); no evaluation between the steps. A violation found this way is '
@@ -22,6 +26,7 @@ ASSUMPTIONS = [
     'reachable ones - C06_install_inv / C03_*_installed prove the properties for all of them',
     'lessons sweep: observer calls, sentinel overwrites of returned objects, further performSpatiallyAdaptiv legs and a companion object '
     'are no-ops in the model (pure function of the benefit history); a leg that rebuilds the refinement is modelled as a fresh run',
+    _c06_gen.ASSUMPTION,
 ]
 FIELDS = ['trees', 'lmax', 'active', 'old', 'scheme', 'book']
 PROP = 6
@@ -130,6 +135,10 @@ def evaluate(chk, cases, what, fields, prop, extra_oracle=None):
         for i, res in zip(slow[:12], again):
             impl[i] = res
     lap('implementation')
+    if not chk.extra.get('float_tables_checked'):
+        chk.extra['float_tables_checked'] = True
+        for msg in dw.float_table_mismatches(run_model, prop):
+            chk.violation('corr:C%02d/float-tables' % prop, 'float-table-mismatch', {}, None, msg, failing_input=False)
     mcases = [dw.model_case(c, r if st == 'ok' else None) for c, (st, r) in zip(cases, impl)]
     mres = run_model(prop, mcases)
     lap('model')
@@ -333,7 +342,10 @@ def _sweep(chk, prop, c, r, fixed_case, leg_out, i, fields, extra_oracle):
 
 
 def run(chk):
-    chk.coq_obligations()
+    # source-derived model: coq/Gen/DimWiseGen.v is regenerated from the working tree; Props/C06gen.v is re-checked against it
+    gen_info = _c06_gen.regenerate(chk)
+    chk.coq_obligations(extra_props=_c06_gen.EXTRA_PROPS)
+    gen_problem = _c06_gen.diagnose(chk, gen_info)
     n = chk.n(110, 1500)
     nd = chk.n(1000, 12000)
     ni = chk.n(800, 10000)
@@ -373,6 +385,7 @@ def run(chk):
                      'steps with argument-immutability / returned-object-overwrite probes, bounds / level vectors / points as other object kinds, far-off / tiny / '
                      'huge boxes and benefit magnitudes 2^-60..2^30, further performSpatiallyAdaptiv legs on the same object, a second object alive in the '
                      'process, d = 1, a few trees with 200-300 intervals (histogram keys axis:*)', samples)
+    _c06_gen.finish(chk, gen_info, gen_problem)
 
 
 def replay(chk, rep):
